@@ -849,6 +849,31 @@ def r11_reader_text(ctx, res):
     reader_text_checks(ctx, res)
 
 
+def r12_id_lookups_use_equality(ctx, res):
+    """the id -> rowid look-ups of the importer compare ids with `=`: `col IS ?` is true for EVERY row whose column is NULL
+    when the bound value is None (forms without an id: all of them, the lemma first), so a scalar sub-select silently picks
+    another row and child rows (tags, pronunciations) are attached to the wrong parent; with `=` a NULL never matches and the
+    alternative (rank) decides."""
+    import re as _re
+    n = 0
+    for s in ctx.sites:
+        if s.func.module.short != '_add':
+            continue
+        for v in s.variants:
+            if v.stmt is None or not v.stmt.is_write:
+                continue
+            n += 1
+            sql = ' '.join(v.sql.split())
+            key = f'null-safe-lookup:{s.func.key}:{v.stmt.target}'
+            hits = _re.findall(r'([\w.]+)\s+IS\s+(?:NOT\s+)?(\?|:\w+)', sql, flags=_re.I)
+            res.inst(key, s.loc, f'{len(hits)} IS-placeholder comparisons')
+            if hits:
+                res.find(key, s.loc, f'{s.func.qualname}: `{hits[0][0]} IS {hits[0][1]}` in a statement writing {v.stmt.target}: with a NULL argument '
+                                     f'this matches every row whose {hits[0][0]} is NULL instead of none')
+    if n < 30:
+        raise AnalysisError(f'only {n} writing statement variants found in wn/_add.py')
+
+
 RULES = [
     ('C01-R1', r1_compile_arity, 150),
     ('C01-R2', r2_bindings, 200),
@@ -861,4 +886,5 @@ RULES = [
     ('C01-R9', r9_no_shared_records, 2),
     ('C01-R10', r10_exactly_once, 20),
     ('C01-R11', r11_reader_text, 3),
+    ('C01-R12', r12_id_lookups_use_equality, 30),
 ]
